@@ -39,7 +39,7 @@ LAYOUTS = ['d2', 's1d2', 'd1M1d2', 'd3', 'd4', 's1d3', 'd5']
 SCEN = ['first_eval', 'queue_entry', 'queue_merge', 'second_entry',
         'two_merge', 'source_moved', 'decline', 'reset', 'rebuild',
         'delete_queues', 'force_merge', 'create_branch', 'create_stab',
-        'delete_branch', 'conflict_later']
+        'delete_branch', 'conflict_later', 'delete_branch_with_queue']
 
 
 def combos(seed):
